@@ -4,7 +4,7 @@ from __future__ import annotations
 import ast
 from typing import Dict, Set
 
-from .common import R, seg
+from .common import expand_locals, R, seg
 from .c19 import term
 
 NEED = ("generic",)
@@ -79,6 +79,41 @@ def nonempty_guard(ctx, name: str, node_id: int) -> bool:
     return False
 
 
+def all_components(r: R, chk, q: str, rule="ALL-COMPONENTS"):
+    """two parameter pairs are the same crossing only when BOTH parameters agree: the quantity a duplicate test compares with the
+    tolerance may not be a minimum over the components of the difference (`min`, `.min()`, `any(... < tol)`) nor one component alone"""
+    ctx = r.root(q)
+    fi = ctx.fi
+    from .extra import _reaching_params
+
+    n = 0
+    for c in ast.walk(fi.node):
+        if not (isinstance(c, ast.Compare) and len(c.ops) == 1 and isinstance(c.ops[0], (ast.Lt, ast.LtE, ast.Gt, ast.GtE))):
+            continue
+        sides = [expand_locals(fi, c.left), expand_locals(fi, c.comparators[0])]
+        dist = [s_ for s_ in sides if any(isinstance(x, ast.BinOp) and isinstance(x.op, ast.Sub) for x in ast.walk(s_))]
+        if len(dist) != 1 or "pairs" not in _reaching_params(fi, dist[0]):
+            continue
+        n += 1
+        d = dist[0]
+        bad = None
+        for x in ast.walk(d):
+            if isinstance(x, ast.Call):
+                nm = x.func.attr if isinstance(x.func, ast.Attribute) else x.func.id if isinstance(x.func, ast.Name) else ""
+                if nm in ("min", "amin", "nanmin", "minimum"):
+                    bad = f"`{seg(x, 40)}` takes the smallest component of the difference"
+            if isinstance(x, ast.Subscript) and isinstance(x.slice, ast.Constant) and any(isinstance(y, ast.BinOp) and isinstance(y.op, ast.Sub) for y in ast.walk(x.value)):
+                bad = f"`{seg(x, 40)}` looks at one component of the difference only"
+        # any(abs(a - b) < tol for ...) is the same mistake
+        par = next((a for a in ast.walk(fi.node) if isinstance(a, ast.Call) and isinstance(a.func, ast.Name) and a.func.id == "any" and any(y is c for y in ast.walk(a))), None)
+        if par is not None:
+            bad = f"`{seg(par, 50)}` accepts agreement in any one component"
+        chk.ob(rule, f"{q}: `{seg(c, 50)}` measures the difference in every component", bad is None, loc=r.loc(ctx, c),
+               detail="" if bad is None else f"{q}: in the duplicate test `{seg(c, 60)}` {bad}: two different crossings that share one parameter (the same t with different u, or the reverse) are merged into one, so not every crossing is returned",
+               func=q, construct="duplicate test on one component")
+    chk.floor(rule, f"duplicate tests in {q}", n, 1)
+
+
 def run(m, chk):
     r = R(m, chk)
     chk.explanation = (
@@ -87,7 +122,7 @@ def run(m, chk):
         "relative to the minimum); both components of the Newton iterate are clamped on both sides after every update; loops are counter-bounded; the duplicate filter is passed; curves are not modified. "
         "Completeness (every crossing is found) and accuracy are not decided."
     )
-    chk.decides = ["PRECOND(non-empty)", "ABS-RESIDUAL", "CLAMP", "TERM", "must-pass-through(filter_pairs)", "PURE", "DEP-MAY (both curves, weights included)"]
+    chk.decides = ["ALL-COMPONENTS (the duplicate filter compares both parameters of a pair)", "PRECOND(non-empty)", "ABS-RESIDUAL", "CLAMP", "TERM", "must-pass-through(filter_pairs)", "PURE", "DEP-MAY (both curves, weights included)"]
     chk.not_decided = ["every crossing is found", "accuracy of the parameters"]
     # 0. the result depends on every field of both curves (weights included: a rational curve is not its control polygon)
     CC = "advanced.Intersection.curve_and_curve"
@@ -221,3 +256,4 @@ def run(m, chk):
     r.pure("PURE", I + "bcurve_and_bcurve", ["beziera", "bezierb"])
     r.pure("PURE", PMD, ["pairs", "curvea", "curveb"])
     r.pure("PURE", I + "filter_pairs", ["pairs"])
+    all_components(r, chk, I + "filter_pairs")
